@@ -933,10 +933,8 @@ def process_commandline(out: OutputBuffer, args: List[str]) -> 'AuditConf':  # p
         sys.exit(exitcodes.GOOD)
 
     if aconf.client_audit is False and aconf.target_file is None:
-        if oport is not None:
-            host = argument.host
-        else:
-            host, port = Utils.parse_host_and_port(argument.host)
+        # The -p/--port option is the default port; a port given with the host itself (host:port, [IPv6]:port) takes precedence.
+        host, port = Utils.parse_host_and_port(argument.host, default_port=oport if oport is not None else 22)
 
         if not host and aconf.target_file is None:
             out.fail("target host is not specified", write_now=True)
@@ -946,10 +944,11 @@ def process_commandline(out: OutputBuffer, args: List[str]) -> 'AuditConf':  # p
         port = 2222
 
     if oport is not None:
-        port = Utils.parse_int(oport)
-        if port < 1 or port > 65535:
+        if Utils.parse_int(oport) < 1 or Utils.parse_int(oport) > 65535:
             out.fail("port must be greater than 0 and less than 65535: {}".format(oport), write_now=True)
             sys.exit(exitcodes.UNKNOWN_ERROR)
+        if aconf.client_audit or aconf.target_file is not None:  # The port to listen on, or the default port of the targets in the file.
+            port = Utils.parse_int(oport)
 
     aconf.host = host
     aconf.port = port
